@@ -301,6 +301,18 @@ where
                 if ct.w.len() as i64 != geti(&v["expect"], "len") {
                     return Outcome::fail(json!({"len": ct.w.len()}), "payload length differs from max(32, Leb128Len(n)+n)");
                 }
+                if n == 65536 && k != 0 {
+                    let scheme = scheme_of(gets(v, "scheme"));
+                    if let Ok(sig) = lib.sk::<C>(k).sign(scheme, &id) {
+                        for big in [(1usize << 20) - 3, (1 << 20) + 1, 3 << 20] {
+                            let m = msg_of_len(conc, "Mbig", big);
+                            let back: Option<Vec<u8>> = pk.encrypt_time_lock(scheme, &m, &id).ok().and_then(|c| c.decrypt(&sig).into());
+                            if back.as_deref() != Some(&m[..]) {
+                                return Outcome::fail(json!({"n": big}), format!("a message of {big} bytes does not survive time-lock seal / open"));
+                            }
+                        }
+                    }
+                }
             }
             Outcome::pass(json!({"res": got}))
         }
